@@ -17,7 +17,7 @@ def finding_key(ob: Ob) -> str:
 
 
 def run_prop(prop: str, what: str, tier: str, seed: int, log, opts=None, key_of=None, only=None,
-             routing_validation=True) -> List[Ob]:
+             routing_validation=True, bounds='family program') -> List[Ob]:
     t0 = time.time()
     pool = fam.VALID if tier == 'quick' else fam.ALL_CASES      # ALL_CASES starts with VALID
     indices = [i for i in range(len(pool)) if only is None or only(pool[i])]
@@ -49,7 +49,7 @@ def run_prop(prop: str, what: str, tier: str, seed: int, log, opts=None, key_of=
         ob = Ob(name=r['label'], engine='shellsem', kind='program', claim=True, verdict='inconclusive',
                 detail=r['detail'], paths=r['stats']['paths'], confirmed_paths=r['stats']['paths'],
                 solver_queries=r['stats']['queries'], solver_s=round(r['stats']['solver_s'], 3),
-                wall_s=r['wall_s'], bounds='family program', module=f'props.{prop.lower()}')
+                wall_s=r['wall_s'], bounds=bounds, module=f'props.{prop.lower()}')
         if r['status'] == 'ok':
             mine = [f for f in r['findings'] if f['prop'] == prop or (prop == 'C04' and f['prop'] in ('C01', 'C02', 'C04'))]
             if not mine:
@@ -110,10 +110,22 @@ def run_prop(prop: str, what: str, tier: str, seed: int, log, opts=None, key_of=
                               for r in results[:6]] +
                              [{'validated_against_g++': v['label'], 'events': v.get('n_events')} for v in agree[:4]],
                   'traces_validated_against_impl': len(agree) + sum(fo.validated for fo in extra)})
+    threaded = [r['validation'] for r in results if r.get('validation')]
+    if threaded:
+        _LAST.update({'schedules_explored': sum(v.get('schedules', 0) for v in threaded),
+                      'bounds_per_program (cycles, out-events, preemptions, client threads)':
+                          sorted({json_dumps(v.get('configs')) for v in threaded}),
+                      'schedules_replayed_on_compiled_program': sum(v.get('checked', 0) for v in threaded),
+                      'tsan_free_runs': sum(v.get('tsan_runs', 0) for v in threaded)})
     log(f'[shellsem] {prop}/{what}: {len(results)} programs, '
         f'{sum(1 for r in results if r["status"] == "ok")} decided, {len(replay_jobs)} findings replayed, '
         f'{len(agree)}/{len(vals)} machine-vs-g++ validations agree, {time.time() - t0:.0f}s')
     return obs + extra
+
+
+def json_dumps(x) -> str:
+    import json
+    return json.dumps(x)
 
 
 def _known_keys(prop: str):
